@@ -46,7 +46,7 @@ def _run_variant(prop: str, repo_root: str, variant: dict, base_keys: set[str]) 
         shutil.copytree(Path(repo_root) / "pydra", Path(d) / "pydra", ignore=shutil.ignore_patterns("tests", "__pycache__", "*.pyc"))
         if not _apply(Path(d), variant["edits"]):
             return {"name": variant["name"], "status": "skipped (precondition no longer matches)"}
-        env = dict(os.environ, PYDRA_SA_NO_SELFVAL="1")
+        env = dict(os.environ, PYDRA_SA_NO_SELFVAL="1", PYDRA_SA_OUT=str(Path(d) / "_out"))
         r = subprocess.run([sys.executable, "-m", "pydra_sa.check", prop, "--repo", d, "--no-write", "--tier", "quick"], cwd=str(VERIF), capture_output=True, text=True, env=env)
         fired = r.returncode == 1 and f"VIOLATION property={prop}" in r.stdout
         lines = [l.strip() for l in r.stdout.splitlines() if l.startswith("  ") and not l.startswith("      ")]
